@@ -17,6 +17,7 @@ type fileCtx struct {
 	pkg     int
 	imports map[string]string // import path -> local name
 	names   map[string]bool   // local names taken
+	blank   []string          // blank imports of the file
 	body    strings.Builder
 }
 
@@ -418,6 +419,16 @@ func (c *fileCtx) file(header string) string {
 		for _, p := range paths {
 			fmt.Fprintf(&b, "\t%s %q\n", c.imports[p], p)
 		}
+		for _, p := range c.blank {
+			// possibly the same path a second time (legal Go)
+			fmt.Fprintf(&b, "\t_ %q\n", p)
+		}
+		b.WriteString(")\n\n")
+	} else if len(c.blank) > 0 {
+		b.WriteString("import (\n")
+		for _, p := range c.blank {
+			fmt.Fprintf(&b, "\t_ %q\n", p)
+		}
 		b.WriteString(")\n\n")
 	}
 	b.WriteString(c.body.String())
@@ -503,10 +514,7 @@ func (p *Program) Files(withDriver bool) map[string]string {
 						c.renderSet(s)
 					}
 				}
-				for k, bi := range p.InjBlankImports {
-					c.imports[bi] = "_"
-					_ = k
-				}
+				c.blank = append(c.blank, p.InjBlankImports...)
 				if p.InjRaw != "" {
 					c.pf("%s\n", p.InjRaw)
 				}
